@@ -9,7 +9,7 @@
    scipy.fft.rfft / irfft.  A phase table p : k -> C (0 <= k <= n/2) stands for
    np.exp(1j * np.angle(rfft(dephas)) * s).  Signals are real: cconj x_j = x_j. *)
 From Coq Require Import ZArith List Bool Field.
-From IBL.C07 Require Import Model Sums Proofs Inst.
+From IBL.C07 Require Import Model Sums Proofs Inst Waveform WaveProofs.
 Import ListNotations.
 
 Section Statements.
@@ -324,3 +324,86 @@ Example C07_example_corr_odd_lengths :
   xcorr_same Z 0 Z.add Z.mul [0;3;0;0;0] [0;0;0;3;0] = [9;0;0;0;0] /\
   int_delay_of_peak 5 0 = 2.
 Proof. vm_compute. repeat split. Qed.
+
+(* ---- round 2 ---- *)
+
+(* The frequency-domain entry point fshift(W, s, ns=n) (complex W: only W * phase) and the
+   time-domain path: irfft(fshift(rfft(x), s, ns=n), n) IS fshift(x, s), and both refuse
+   together; on a half spectrum of the right length the result is the pointwise product. *)
+Theorem C07_frequency_entry_equals_time_domain :
+  forall (C : Type) (c0 c1 : C) (cadd cmul : C -> C -> C) (copp cinv cconj : C -> C)
+         (n : nat) (w : Z -> C),
+  setting C c0 c1 cadd cmul copp cinv cconj n w ->
+  (forall p x, length x = n ->
+     fshift1 C c0 c1 cadd cmul cinv cconj n w p x
+     = option_map (irfft_list C c0 c1 cadd cmul cinv cconj n w)
+                  (fshift_freq C c0 cmul n p (rfft_list C c0 cadd cmul n w x))) /\
+  (forall p W k, (2 <= n)%nat -> length W = (n / 2 + 1)%nat -> length p = (n / 2 + 1)%nat ->
+     (k <= n / 2)%nat ->
+     exists Y, fshift_freq C c0 cmul n p W = Some Y /\ length Y = (n / 2 + 1)%nat /\
+               nthC C c0 Y k = cmul (nthC C c0 W k) (nthC C c0 p k)).
+Proof.
+  intros C c0 c1 cadd cmul copp cinv cconj n w ST. split.
+  - exact (pub_via_freq C c0 c1 cadd cmul copp cinv cconj n w ST).
+  - exact (pub_freq_spec C c0 c1 cadd cmul copp cinv cconj n w ST).
+Qed.
+Print Assumptions C07_frequency_entry_equals_time_domain.
+
+(* get_apf_from2spikes (the exact core of wave_shift_phase): the cross spectrum
+   rfft(x) * conj(rfft(fshift(x, s))) carries, at every bin strictly between DC and Nyquist,
+   the power |X_k|^2 times the conjugate phase factor (angle +2 pi k s / n: a phase slope
+   proportional to the shift). *)
+Theorem C07_cross_spectrum_of_shifted_copy :
+  forall (C : Type) (c0 c1 : C) (cadd cmul : C -> C -> C) (copp cinv cconj : C -> C)
+         (n : nat) (w : Z -> C),
+  setting C c0 c1 cadd cmul copp cinv cconj n w ->
+  forall (p x : nat -> C) (k : nat), real_sig C cconj n x -> (0 < k)%nat -> (2 * k < n)%nat ->
+  cross_spectrum_at C c0 cadd cmul cconj n w x (fshift_fun C c0 c1 cadd cmul cinv cconj n w p x) k
+  = cmul (cmul (rfft_at C c0 cadd cmul n w x k) (cconj (rfft_at C c0 cadd cmul n w x k))) (cconj (p k)).
+Proof.
+  intros C c0 c1 cadd cmul copp cinv cconj n w ST.
+  exact (pub_cross_low C c0 c1 cadd cmul copp cinv cconj n w ST).
+Qed.
+Print Assumptions C07_cross_spectrum_of_shifted_copy.
+
+(* Equality case of Cauchy-Schwarz: an entry of the correlation that reaches the mean of the
+   two energies forces b to be a advanced by that entry's lag; hence the autocorrelation of a
+   non-flat signal is STRICTLY below its energy everywhere but at index floor(N/2), and
+   np.argmax of correlate(x, x, 'same') is exactly floor(N/2) (integer delay 0), for every
+   length N of either parity. *)
+Theorem C07_corr_peak_is_unique :
+  (forall (N : nat) (a b : nat -> Z) (i : nat),
+     sumn Z 0 Z.add (fun l => a l * a l) N + sumn Z 0 Z.add (fun l => b l * b l) N
+       <= 2 * xcorr_same_at Z 0 Z.add Z.mul N a b i ->
+     forall l, (l < N)%nat ->
+       if inr N (Z.of_nat l + (Z.of_nat i - Z.of_nat (N / 2)))
+       then a (Z.to_nat (Z.of_nat l + (Z.of_nat i - Z.of_nat (N / 2)))) = b l else b l = 0) /\
+  (forall (N : nat) (a : nat -> Z) (i : nat), (i < N)%nat -> i <> (N / 2)%nat ->
+     0 < sumn Z 0 Z.add (fun l => a l * a l) N ->
+     xcorr_same_at Z 0 Z.add Z.mul N a a i < sumn Z 0 Z.add (fun l => a l * a l) N) /\
+  (forall x : list Z,
+     0 < sumn Z 0 Z.add (fun l => nthC Z 0 x l * nthC Z 0 x l) (length x) ->
+     argmax Z Z.leb (xcorr_same Z 0 Z.add Z.mul x x) = Some (length x / 2)%nat /\
+     int_delay_of_peak (length x) (length x / 2) = 0).
+Proof. split; [exact xc_equality | split; [exact autocorr_strict | exact autocorr_argmax]]. Qed.
+Print Assumptions C07_corr_peak_is_unique.
+
+(* shift_waveform on an already aligned cluster (k >= 1 identical integer spikes, ntr traces,
+   nt samples, any parity): the median template is (twice) the spike, and whatever peak trace
+   find_peak (C14's pick_peak) selects — provided the spike is not flat on it — every
+   integer delay floor(nt/2) - argmax is 0 and rolling by the delays returns the cluster. *)
+Theorem C07_aligned_cluster_is_fixed_point :
+  forall (ntr nt : nat) (sp : list (list Z)) (k tr : nat),
+  (1 <= k)%nat -> length sp = ntr -> (forall row, In row sp -> length row = nt) ->
+  peak_trace (template2 ntr nt (repeat sp k)) = Some tr -> (tr < ntr)%nat ->
+  0 < sumn Z 0 Z.add (fun l => nthC Z 0 (nth tr sp []) l * nthC Z 0 (nth tr sp []) l) nt ->
+  spike_delays_int ntr nt (repeat sp k) = Some (tr, repeat (Some 0) k) /\
+  apply_int_delays nt (repeat sp k) (repeat 0 k) = repeat sp k.
+Proof. exact aligned_cluster_fixed. Qed.
+Print Assumptions C07_aligned_cluster_is_fixed_point.
+
+Example C07_example_aligned_cluster :
+  spike_delays_int 2 7 (repeat [[0;1;3;1;0;0;0]; [0;2;9;2;0;0;0]] 3) = Some (1%nat, [Some 0; Some 0; Some 0]) /\
+  spike_delays_int 2 7 [[[0;1;3;1;0;0;0]; [0;2;9;2;0;0;0]]; [[0;0;1;3;1;0;0]; [0;0;2;9;2;0;0]];
+                        [[0;1;3;1;0;0;0]; [0;2;9;2;0;0;0]]] = Some (1%nat, [Some 0; Some (-1); Some 0]).
+Proof. vm_compute. split; reflexivity. Qed.
